@@ -3,6 +3,17 @@
 import json, subprocess, collections
 
 CLAIMS = {
+ "C05": dict(
+   text="Static value-provenance analysis of Entity values (go/ssa, interprocedural, context-sensitive in the constant option flags): every API-supplied target crosses the zero-or-alive validation before it can become a table's target or be compared/looked up; plus shape rules for the single-relation guard, target retention/reset in both movers, the read side, who writes IsRelation, whole-handle comparison and that inherited targets are never subjected to the dead-target panic. Decided for all paths and all entries, which is what a test of sampled targets cannot give.",
+   note="Decides necessary structural conditions: not that the reported target is the last assigned over histories, nor table placement. Trusted: go/ssa, recogniser of the validation idiom (`!t.IsZero() && !Alive(t)` → panic, in if or && form), sink table (target map key, RelationTarget store, target flag set).",
+   technique="static analysis: interprocedural value-provenance (taint with validation kill) on go/ssa + dominance rules",
+   ref="§2 C05"),
+ "C10": dict(
+   text="Static path rules on go/ssa over every exported single-entity entry: no tracked write is followed by an explicit panic (write-then-panic summaries), uses that need a check are dominated by it (liveness before indexing, resource slot tests, bulk count, filter registration, registry limit), sometimes-nil results are not dereferenced unchecked, option-pair values are only exposed under their flag, and dead targets panic on every path. These are for-all-paths statements a test cannot enumerate.",
+   note="Scope decisions stated in DESIGN.md C10: creation of empty graph nodes/tables before a validation panic is not counted; type registration is not an entity operation; named infeasible pairs are listed in checker/rules_c10.go with reasons. Does not decide full before/after state equality, nor run-time panics of unchecked accessors.",
+   technique="static analysis: write-then-panic path summaries, dominance (must-precede) dataflow, nil-contract and option-pair dataflow on go/ssa",
+   ref="§2 C10"),
+
  "C09": dict(
    text="Static proof obligations over the SSA form of every exported entry point (both mask-width builds; thorough adds debug and 386): a world-lock test with a panicking locked edge precedes the first write to entity/table/graph/component-registry state on every path (interprocedural guard summaries over a VTA call graph), the registration rollback is complete, every acquired lock is released or handed to the returned query exactly once, and path summaries show Next/Step close exactly once iff they return false. This is the part of the property that is visible in the shape of the code on every path; it is decided for all paths rather than for sampled ones.",
    note="Decides structural necessary conditions only: not lock counts at run time, not that a panicking call leaves every observable unchanged beyond 'no structural write before the test', not listener re-entrancy. Trusted: go/types, go/ssa, VTA over-approximation, the guard-idiom recogniser (call or inline `if locked {panic}`), state-class table in checker/modset.go.",
